@@ -5,15 +5,24 @@
      atomic_ok     every method that the model treats as ONE atomic step acquires its mutex exactly once, not inside a
                    loop, and performs all its calls on injected stores/caches and all its shared accesses under it;
      lock_order_ok the "held -> acquired" relation over all entry points is acyclic and never re-acquires a held mutex. *)
-From Coq Require Import List String Bool Arith.
+From Coq Require Import List String Bool Arith Ascii.
 Import ListNotations.
 From VF Require Import C13.GenAsIs.
 Open Scope string_scope.
 Open Scope list_scope.
 
 Definition held := list (string * bool).
+(* "m?" = mutex m acquired in a branch with a deferred release: held from there to the end of the function on the path
+   that took the branch (the other path does not touch the state the mutex protects: e.g. deterministic key
+   formatting in formattedstore) *)
+Fixpoint unq (s : string) : string :=
+  match s with
+  | EmptyString => EmptyString
+  | String c EmptyString => if Ascii.eqb c "?"%char then EmptyString else s
+  | String c r => String c (unq r)
+  end.
 Definition heldb (l : string) (excl : bool) (h : held) : bool :=
-  existsb (fun x => String.eqb (fst x) l && (negb excl || snd x)) h.
+  existsb (fun x => String.eqb (unq (fst x)) l && (negb excl || snd x)) h.
 
 Fixpoint find_meth (n : string) (t : list meth) : option meth :=
   match t with [] => None | m :: r => if String.eqb (m_name m) n then Some m else find_meth n r end.
@@ -106,7 +115,22 @@ Definition modelled_atomic : list (string * string * bool) :=   (* method, mutex
     ("service.Message.RegisterMsgEvent", "service.Message.mu", true);
     ("service.Message.UnregisterMsgEvent", "service.Message.mu", true);
     ("ws.connPool.add", "ws.connPool.RWMutex", true); ("ws.connPool.fetch", "ws.connPool.RWMutex", false);
-    ("ws.connPool.remove", "ws.connPool.RWMutex", true); ("ws.getConnPool", "ws.poolLock", true) ].
+    ("ws.connPool.remove", "ws.connPool.RWMutex", true); ("ws.getConnPool", "ws.poolLock", true);
+    ("service.Message.MsgEvents", "service.Message.mu", false);
+    (* formattedstore with NON-deterministic (random) formatted keys: resolve-the-key-then-write is one step *)
+    ("formattedstore.formatStore.storeUsingNonDeterministicKey", "formattedstore.formatStore.lock", true);
+    ("formattedstore.formatStore.lockAndGetValueStoredUnderNonDeterministicKey", "formattedstore.formatStore.lock", false);
+    ("formattedstore.formatStore.getTagsStoredUnderNonDeterministicKey", "formattedstore.formatStore.lock", false);
+    ("formattedstore.formatStore.getValuesStoredUnderNonDeterministicKeys", "formattedstore.formatStore.lock", false);
+    ("formattedstore.formatStore.deleteDataStoredUnderNonDeterministicKey", "formattedstore.formatStore.lock", true);
+    ("formattedstore.formatStore.Batch", "formattedstore.formatStore.lock", true);
+    ("formattedstore.formatStore.Flush", "formattedstore.formatStore.lock", true) ].
+(* where a method also serves a mode that needs no lock (deterministic keys: one call on the store below), only the
+   calls on these fields are required to be inside the region *)
+Definition atomic_fields (n : string) : list string :=
+  if String.eqb n "formattedstore.formatStore.Batch" then ["formattedstore.formatStore.underlyingStore"] else [].
+Definition in_scope (n : string) (s : scall) : bool :=
+  match atomic_fields n with [] => true | fs => existsb (String.eqb (s_field s)) fs end.
 
 Definition is_shared_acc (a : acc) : bool := existsb (String.eqb (a_field a)) shared_fields.
 (* calls through a "close" callback leave the store (they run under the provider's lock, not the store's) *)
@@ -122,7 +146,7 @@ Definition atomic_one (x : string * string * bool) : bool :=
       | [q] => negb (q_loop q) && (negb ex || q_excl q)
       | _ => false
       end &&
-      forallb (fun s => negb (is_store_call s) || heldb l false (s_held s)) (eff_scalls depth [] m) &&
+      forallb (fun s => negb (is_store_call s && in_scope n s) || heldb l false (s_held s)) (eff_scalls depth [] m) &&
       forallb (fun a => negb (is_shared_acc a) || heldb l (a_write a) (a_held a)) (eff_accs depth [] m)
   end.
 Definition not_atomic : list string := map (fun x => fst (fst x)) (filter (fun x => negb (atomic_one x)) modelled_atomic).
@@ -130,7 +154,7 @@ Definition atomic_ok : bool := match not_atomic with [] => true | _ => false end
 
 (* ---------- lock order ---------- *)
 Definition edges : list (string * string) :=
-  flat_map (fun m => flat_map (fun q => map (fun h => (fst h, q_lock q)) (q_held q)) (eff_acqs depth [] m)) entries.
+  flat_map (fun m => flat_map (fun q => map (fun h => (unq (fst h), q_lock q)) (q_held q)) (eff_acqs depth [] m)) entries.
 Definition succs (l : string) : list string := map snd (filter (fun e => String.eqb (fst e) l) edges).
 Fixpoint reaches (fuel : nat) (from to : string) : bool :=
   match fuel with
@@ -154,8 +178,8 @@ Definition lock_rank (l : string) : nat := chain (S (List.length all_locks)) l.
    order the method took them, then the mutex itself; release in reverse order *)
 Definition lact := act string.
 Definition footprint (m : meth) : list lact :=
-  flat_map (fun q => map (fun h => Acq string (fst h)) (q_held q) ++ [Acq string (q_lock q); Rel string (q_lock q)] ++
-                     map (fun h => Rel string (fst h)) (rev (q_held q)))
+  flat_map (fun q => map (fun h => Acq string (unq (fst h))) (q_held q) ++ [Acq string (q_lock q); Rel string (q_lock q)] ++
+                     map (fun h => Rel string (unq (fst h))) (rev (q_held q)))
            (eff_acqs depth [] m).
 Definition footprints_ordered : bool :=
   forallb (fun m => match runb string String.eqb lock_rank [] (footprint m) with Some [] => true | _ => false end) entries.
